@@ -45,6 +45,12 @@ def monitor(tr):
             jr, g = reply, f[1]
         elif kind == "race" and reply.get("kind") == "race" and reply["other"].get("kind") == "join":
             jr, g = reply["other"], st["other_f"][1]
+        if kind == "par" and reply.get("kind") == "par":
+            # joins inside a two-request op (histories of the shared corpus) count as joins of their generation
+            for side in ("a", "b"):
+                w, o = st[side + "_f"], reply[side]
+                if w and w[0] == "join" and o.get("kind") == "join":
+                    joined.setdefault((w[1], o["gen"]), set()).add(o["me"])
         if jr is not None:
             joined.setdefault((g, jr["gen"]), set()).add(jr["me"])
             grp = post["G"].get(g)
